@@ -461,6 +461,7 @@ pub fn run(tier: Tier) -> i32 {
         Box::new(crate::families::scale_family(true)),
         Box::new(crate::families::sorted_run_family()),
         Box::new(crate::families::r8_metadata_family()),
+        Box::new(crate::families::file_header_family()),
         Box::new(crate::families::late_member_family()),
         Box::new(crate::families::unicode_family()),
         Box::new(crate::families::relation_family()),
